@@ -18,7 +18,7 @@ and transitions are extracted from the source on every run (DESIGN §4.4).
 """
 import ast
 
-from .front import unparse, dotted, const_value, FuncInfo
+from .front import unparse, dotted, const_value, FuncInfo, attr_chain
 
 MAX_PATHS = 20000
 
@@ -336,7 +336,11 @@ class Interp:
         recv = None
         states = [(None, st)]
         if isinstance(e.func, ast.Attribute):
-            states = self.ev(e.func.value, st)
+            ch = attr_chain(e.func)
+            if ch and ch[0] not in st.env:
+                states = [(None, st)]       # module-level function (np.x.y, logger.debug, ...): no receiver object
+            else:
+                states = self.ev(e.func.value, st)
         res = []
         for recv, s in states:
             r = self.on_call(e, name, args, kwargs, s)
@@ -618,7 +622,11 @@ class Interp:
         if isinstance(target, ast.Subscript):
             out = []
             for base, s in self.ev(target.value, st):
-                out.append(s.emit('setitem', base, unparse(target.slice), value))
+                if isinstance(target.slice, ast.Slice):
+                    out.append(s.emit('setitem', base, unparse(target.slice), value, None))
+                else:
+                    for k, s2 in self.ev(target.slice, s):
+                        out.append(s2.emit('setitem', base, unparse(target.slice), value, k))
             return out
         return [st]
 
